@@ -1,4 +1,5 @@
 import ZxVerif.Props.C17
 import ZxVerif.Props.C18
+import ZxVerif.Props.C18Filter
 import ZxVerif.Props.C19
 import ZxVerif.Props.C20
